@@ -9,6 +9,7 @@ import (
 	"bytes"
 	"context"
 	"fmt"
+	"io"
 	"os"
 	"path/filepath"
 	"regexp"
@@ -16,12 +17,15 @@ import (
 	"time"
 
 	"github.com/emersion/go-message/textproto"
+	"github.com/emersion/go-msgauth/authres"
 	msgdkim "github.com/emersion/go-msgauth/dkim"
 	"github.com/emersion/go-smtp"
+	"github.com/foxcpp/go-mockdns"
 	"github.com/foxcpp/maddy/framework/buffer"
 	"github.com/foxcpp/maddy/framework/config"
 	"github.com/foxcpp/maddy/framework/log"
 	"github.com/foxcpp/maddy/framework/module"
+	checkdkim "github.com/foxcpp/maddy/internal/check/dkim"
 	"github.com/foxcpp/maddy/internal/modify/dkim"
 	"github.com/foxcpp/maddy/internal/msgpipeline"
 	"github.com/foxcpp/maddy/internal/target/queue"
@@ -170,6 +174,9 @@ func Run(s *simrt.Sim, a *harness.Args, r *harness.Result) {
 	// messages at the endpoint) and two messages are submitted concurrently
 	fileBody := s.T.Choose(st, 2) == 1
 	concurrent := s.T.Choose(st, 2) == 1
+	// the signer has been up for six days (longer than the default
+	// sig_expiry of five) when the messages arrive
+	uptime := []time.Duration{0, 0, 0, 6 * 24 * time.Hour}[s.T.Choose(st, 4)]
 	s.MaxSteps = 100000
 	s.PreemptBudget = []int{0, 1, 2, -1}[s.T.Choose("knob", 4)]
 	s.PreemptNum, s.PreemptDen = 1, 3
@@ -309,6 +316,7 @@ func Run(s *simrt.Sim, a *harness.Args, r *harness.Result) {
 	}
 	submit := func(m *emsg) {
 		ctx := context.Background()
+
 		hdr, err := textproto.ReadHeader(bufio.NewReader(bytes.NewReader(m.hdrRaw)))
 		if err != nil {
 			simrt.Harnessf("generated header does not parse: %v", err)
@@ -343,6 +351,18 @@ func Run(s *simrt.Sim, a *harness.Args, r *harness.Result) {
 			m.acked = true
 			s.Logf("producer: %s accepted", m.id)
 		}
+	}
+	if uptime > 0 {
+		// the server has been running for a while before the messages arrive
+		// (verification below happens at the end of the run, well within the
+		// lifetime of a signature made now)
+		up := false
+		s.Spawn("uptime", inc, func() {
+			time.Sleep(uptime)
+			simrt.Yield("uptime:over")
+			up = true
+		})
+		s.Run(uptime+time.Hour, func() bool { return up })
 	}
 	if concurrent {
 		for _, m := range msgs {
@@ -401,6 +421,44 @@ func Run(s *simrt.Sim, a *harness.Args, r *harness.Result) {
 	if concurrent && n > 1 {
 		ctxSig += "-concurrent"
 	}
+	// maddy's own verifier (check.dkim) as a second opinion at the next hop
+	var dkc *checkdkim.Check
+	if cm, err := checkdkim.New("check.dkim", "vdk", nil, nil); err == nil {
+		dkc = cm.(*checkdkim.Check)
+		if err := dkc.Init(config.NewMap(nil, config.Node{})); err != nil {
+			simrt.Harnessf("check.dkim init: %v", err)
+		}
+		zones := map[string]mockdns.Zone{}
+		for d, rec := range recs {
+			ad, _ := idnaASCII(d)
+			zones["sel._domainkey."+ad+"."] = mockdns.Zone{TXT: []string{rec}}
+		}
+		dkc.VerifSetResolver(&mockdns.Resolver{Zones: zones})
+	} else {
+		simrt.Harnessf("check.dkim: %v", err)
+	}
+	maddyVerdict := func(data []byte) (pass bool, all []string) {
+		br := bufio.NewReader(bytes.NewReader(data))
+		h, err := textproto.ReadHeader(br)
+		if err != nil {
+			return false, []string{"unparsable: " + err.Error()}
+		}
+		body, _ := io.ReadAll(br)
+		st, err := dkc.CheckStateForMsg(context.Background(), &module.MsgMetadata{ID: "verify"})
+		if err != nil {
+			return false, []string{err.Error()}
+		}
+		res := st.CheckBody(context.Background(), h, buffer.MemoryBuffer{Slice: body})
+		for _, ar := range res.AuthResult {
+			if dr, ok := ar.(*authres.DKIMResult); ok {
+				all = append(all, fmt.Sprintf("%s(%s)", dr.Value, dr.Domain))
+				if dr.Value == authres.ResultPass && dr.Domain != "foreign.example" {
+					pass = true
+				}
+			}
+		}
+		return pass, all
+	}
 	verified := 0
 	for _, tx := range mx.Received() {
 		if tx.FinalCode/100 != 2 {
@@ -424,6 +482,15 @@ func Run(s *simrt.Sim, a *harness.Args, r *harness.Result) {
 			break
 		}
 		verified++
+		// maddy's verifier agrees, also when an unrelated broken signature
+		// sits on top of maddy's
+		if ok, all := maddyVerdict(tx.Data); !ok {
+			s.Violate("C08/maddy-verifier-disagrees/plain", "go-msgauth verifies message #%d, maddy's check.dkim reports %v", tx.N, all)
+		}
+		foreign := "DKIM-Signature: v=1; a=rsa-sha256; c=relaxed/relaxed; d=foreign.example; s=nokey;\r\n h=From; bh=47DEQpj8HBSa+/TImW+5JCeuQeRkm5NMpJWZG3hSuFU=; b=AAAA\r\n"
+		if ok, all := maddyVerdict(append([]byte(foreign), tx.Data...)); !ok {
+			s.Violate("C08/maddy-verifier-disagrees/foreign-signature-on-top", "message #%d with an unverifiable foreign signature prepended: maddy's check.dkim reports %v for the signatures, none passing for the signing domain", tx.N, all)
+		}
 		// tampering must be detected
 		for _, tm := range []struct{ name, from, to string }{
 			{"alter", "From: <sender@origin.example>", "From: <attacker@origin.example>"},
@@ -446,7 +513,7 @@ func Run(s *simrt.Sim, a *harness.Args, r *harness.Result) {
 		}
 	}
 	s.StatN("verified_at_next_hop", verified)
-	r.Shape = fmt.Sprintf("%s %s/%s srvutf8=%v retry=%v crash=%d frag=%d rf=%v fb=%v conc=%v msgs=%d", algo, hc, bc, srvUTF8, firstFails, crashAt, maxRead, readFault, fileBody, concurrent, n)
+	r.Shape = fmt.Sprintf("%s %s/%s srvutf8=%v retry=%v crash=%d frag=%d rf=%v fb=%v conc=%v up=%v msgs=%d", algo, hc, bc, srvUTF8, firstFails, crashAt, maxRead, readFault, fileBody, concurrent, uptime, n)
 	for _, m := range msgs {
 		r.Shape += fmt.Sprintf("[%s u=%v h=%d b=%d]", m.from, m.utf8, len(m.hdrRaw), len(m.body))
 	}
